@@ -25,7 +25,7 @@ import random
 import sys
 import time
 
-from .common import (CORPUS, coq_Z, coq_bool, coq_list, coq_nat, coq_opt,
+from .common import (CORPUS, time_limit, coq_Z, coq_bool, coq_list, coq_nat, coq_opt,
                      parse_eval_lists, shards)
 
 T = 64                      # ticks per second
@@ -207,8 +207,12 @@ def run_impl(mod, spec, ops, idx=0):
     table = sd_table()
     timed = [s["name"] for s in spec["states"] if s["timed"]]
     out = []
+    hung = False
     for op in ops:
         m._log = []
+        if hung:                 # the call did not return: nothing can be said about the rest of this history
+            out.append([])
+            continue
         try:
             if op["op"] == "enable":
                 for name in timed:
@@ -222,14 +226,17 @@ def run_impl(mod, spec, ops, idx=0):
                         table.putNumber(key, v / T)
                         if table.getNumber(key, -12345.0) != v / T:
                             problems.append("could not write %s" % key)
-                m.on_enable()
+                with time_limit(5):
+                    m.on_enable()
             elif op["op"] == "iter":
                 m._rules = op["rules"]
-                m.on_iteration(op["tm"] / T)
+                with time_limit(5):
+                    m.on_iteration(op["tm"] / T)
             else:
                 m.on_disable()
         except Exception as e:  # noqa
             m._log.append(("err", type(e).__name__))
+            hung = hung or type(e).__name__ == "Hang"
         evs = []
         for e in m._log:
             if e[0] == "call":
